@@ -63,6 +63,8 @@ structure Info where
   reg : Reg
   last : Option Frame
   strict : Bool
+  /-- `_last_strict_types`: the strict flag the remembered state was validated under (read only next to `last`) -/
+  lastStrict : Bool := false
   deriving DecidableEq, Repr
 
 /-! ### dict primitives -/
@@ -153,13 +155,13 @@ def updateColumns (strict : Bool) (r : Reg) (f : Frame) : Reg × Option Err :=
       | (r2, none) => (reorder r2 f.names, none)
       | (r2, some e) => (r2, some e)
 
-/-- `ComplementaryTableInfo._check_dataframe`.  The short cut compares column names, dtypes and
-    emptiness; the remembered dtypes are forgotten before `_update_columns` runs, so a failed update
+/-- `ComplementaryTableInfo._check_dataframe`.  The short cut compares column names, dtypes,
+    emptiness and the strict flag; the remembered dtypes are forgotten before `_update_columns` runs, so a failed update
     leaves `none` (`_last_dataframe_empty` keeps its value but is only ever read next to the dtypes). -/
 def checkDataframe (i : Info) (f : Frame) : Info × Option Err :=
-  if i.last = some f then (i, none)
+  if i.last = some f ∧ i.lastStrict = i.strict then (i, none)
   else match updateColumns i.strict i.reg f with
-    | (r, none) => ({ i with reg := r, last := some f }, none)
+    | (r, none) => ({ i with reg := r, last := some f, lastStrict := i.strict }, none)
     | (r, some e) => ({ i with reg := r, last := none }, some e)
 
 /-- `ComplementaryTableInfo.units` -/
@@ -380,6 +382,8 @@ inductive Op
   | setColUnit (name u : Str)
   /-- `Table.column_metadata[name].display_format = ColumnFormat(…)` (or `None`) -/
   | setFmt (name : Str) (fmt : Option Str)
+  /-- `table.metadata.strict_types = b`: a plain attribute assignment, no consultation -/
+  | setStrict (b : Bool)
   /-- `Table(t.df, units=…, strict_types=…)`: continue with the re-wrapped table if it could be built -/
   | rewrap (us : Option (List Str)) (strict : Option Bool)
   /-- a pandas operation that returns a new frame `f` (selection, copy, sort, reindex, concat, merge,
@@ -396,6 +400,7 @@ def step (t : Tbl) : Op → Tbl × Option Err
   | .setAllUnits us => let (i, e) := setAllUnits t.info t.frame us; ({ t with info := i }, e)
   | .setColUnit n u => let (i, e) := setColUnit t.info t.frame n u; ({ t with info := i }, e)
   | .setFmt n fm => let (i, e) := setColFmt t.info t.frame n fm; ({ t with info := i }, e)
+  | .setStrict b => ({ t with info := { t.info with strict := b } }, none)
   | .rewrap us st =>
     match rewrap t.info t.frame us st with
     | (_, .ok i2) => ({ t with info := i2 }, none)
